@@ -498,6 +498,11 @@ func (s *Store) GC(ctx context.Context) error {
 	s.sync.Lock()
 	defer s.sync.Unlock()
 
+	// do not start pruning the index on a context that is already done
+	if err := isContextDone(ctx); err != nil {
+		return err
+	}
+
 	// get reachable nodes by reloading the index
 	err := s.gcIndex(ctx)
 	if err != nil {
